@@ -77,6 +77,8 @@ class C11(Spec):
         return [Batch("c11-search", [self.rand_case(rng) for _ in range(20000)])]
 
     def nontrivial(self, case, res):
+        if case.op == "stampx":
+            return bool(res["impl"]) and res["impl"][0] == 0
         if case.op == "net":
             return case.meta.get("sources", 0) >= 2 and case.meta.get("items", 0) >= 3
         m = case.meta
@@ -163,9 +165,32 @@ class C11(Spec):
         w.meta.update({"sources": len(urls), "items": len(stamps), "amounts": amounts})
         return w
 
+    def stamp_cases(self, rng, n):
+        """what a feed orders by: Timestamp() of posts, actors and activities built from (mis)shaped JSON"""
+        import asgen
+        import jsongen
+        from common import text_tokens
+        cases = []
+        for _ in range(n):
+            ctor = rng.choice((0, 0, 1, 2, 2))
+            doc = (asgen.post, asgen.actor, asgen.activity)[ctor](rng, 1, 0.0)
+            if rng.random() < 0.3:
+                doc["published"] = rng.choice(["2021-05-06T07:08:09Z", "2021-05-06T07:08:09.5+02:00", "yesterday", 5, "", None, "1969-12-31T23:59:59Z", "0001-01-01T00:00:00Z"])
+            text = jsongen.to_text(doc)
+            cases.append(Case("stampx", text_tokens(text) + [ctor], {"json": text[:2000], "ctor": ctor}))
+        return cases
+
     def extra_checks(self, scratch, binary, rng, tier, report):
         import netgen
         import runner
+        sb = Batch("c11-stamps", self.stamp_cases(rng, 300 if tier == "quick" else 20000), env={"VERIF_CASE_TIMEOUT": "20"},
+                   correspondence="Tangible.Timestamp() == Pub.*_timestamp of the date field the constructor stored")
+        saved0 = (self.oracle_filter, self.no_compare_ops)
+        self.oracle_filter, self.no_compare_ops = {"timestamp_equals_model"}, ("stampx",)
+        try:
+            runner.run_batches(self, scratch, binary, [sb], report)
+        finally:
+            self.oracle_filter, self.no_compare_ops = saved0
         base = netgen.pick_port_base(rng)
         cases = [self.remote_feed_world(rng, base).case() for _ in range(150 if tier == "quick" else 5000)]
         b = Batch("c11-remote", cases, config="[network]\ntimeout_seconds = 2\n", env={"VERIF_SIM_PORT_BASE": str(base), "VERIF_CASE_TIMEOUT": "40"}, timeout=900,
